@@ -121,7 +121,7 @@ HDR = core.HDR.replace('Import Base Spec.', 'Import Base Spec Sem.')
 
 def run(tier, seed):
     t0 = time.time(); idx, info = flow.prepare()
-    files, notes, cover = f1.build(idx, CFGS, 'acc', spec, per_file=80)
+    files, notes, cover = f1.build(idx, CFGS, 'acc', spec, per_file=80, pid='C17')
     per_fn = 3 if tier == 'quick' else 20
     return f1.run('C17', tier, seed, idx, info, t0, files, notes, cover, HDR, per_fn,
         'one lemma per access path (constructor, reader, writer) of the 40 vector types and the two quaternion types in the sse2, scalar-math and core-simd configurations, against the list-of-lanes view, for all lane values; writers are the setter halves of the reference-returning accessors; correspondence: %d random calls per function' % per_fn,
